@@ -2,6 +2,11 @@ NOTES = ("All checks: ./check <ID> --tier quick|thorough, VERIF_SEED respected, 
          "fix: commits in /repo are listed in known_findings.json as fixed entries.")
 NOT_APPLICABLE = {}
 CHECKS = {
+ "C07": {
+  "technique": "Hypothesis property-based testing over real pytest subprocess sessions; oracle from junit outcomes and exit status against generator-assigned site statuses, executed sites observed through side-file markers",
+  "text": "Generated files (1-4 tests x 1-4 sites, statuses ok/wrong/missing, five operations, loops with a late wrong iteration, shared module-level sites) are run with every flag combination (category subsets alone or with report/review/short-report, no flags, disable); a test that executed a bad site must be failed/errored with non-zero exit status, all others passed. Exploration.",
+  "note": "which sites a test executed is observed (markers), not modelled; module-level empty snapshots are outside the property's scope",
+ },
  "C19": {
   "technique": "Hypothesis-generated three-way differential testing: Example.run_inline vs Example.run_pytest vs a real `python -m pytest` session on identical generated projects",
   "text": "Generated projects (1-2 files, all operations, noisy previous values, failing and raising tests, HasRepr values, several categories pending in one container) are run through the two public helpers and a real session with every category subset; changed files must be identical across the three and the reported categories must match the sections of a real report session with the same flags. Exploration.",
